@@ -31,11 +31,15 @@ def run_cases(chk, n_fam, n_cases, gen_handlers, oracle=None, label="tree"):
         env = mk_env(fam)
         infos = fam.infos()
         for _ in range(n_cases):
-            hs = gen_handlers(rng, fam)
             roots = []
             for _ in range(rng.choice([1, 1, 2])):
                 fi = rng.randrange(fam.k)
                 roots.append((fi, fam.gen_script(rng, fi, [rng.randrange(0, 10)])))
+            import inspect
+            if len(inspect.signature(gen_handlers).parameters) >= 3:
+                hs = gen_handlers(rng, fam, roots)
+            else:
+                hs = gen_handlers(rng, fam)
             try:
                 evs, err, hj = treecorr.run_impl(fam, hs, env, roots)
             except Exception as e:  # a selector the implementation refuses: not a case
@@ -76,11 +80,18 @@ def pyprog_drop(fam):
     pyprog.drop_module(fam.mod)
 
 
-def gen_handlers(rng, fam):
+def gen_handlers(rng, fam, roots=None):
     hs = []
     for _ in range(rng.choice([1, 1, 1, 2])):
-        sel = treegen.gen_level(rng, fam, rng.randrange(0, 3), True, conds=rng.random() < 0.2,
-                                tags=rng.random() < 0.3)
+        sel = None
+        if roots and rng.random() < 0.45:
+            # derived from the call tree that will run: chains of live activations with context captures and
+            # sibling calls anywhere below them (also inside deeper levels of the chain)
+            fi, script = rng.choice(roots)
+            sel = treegen.directed_selector(rng, fam, fi, script)
+        if sel is None:
+            sel = treegen.gen_level(rng, fam, rng.randrange(0, 3), True, conds=rng.random() < 0.2,
+                                    tags=rng.random() < 0.3)
         hs.append({"kind": "immediate", "selector": sel, "trigger": True})
     return hs
 
